@@ -78,6 +78,32 @@ type c14Env struct {
 	closers []io.Closer
 }
 
+// slowLink makes the host->TNC direction of the serial link slow: a write of more than 8 bytes goes out in
+// two halves 10 ms apart (a UART at work), so a frame can be "on the wire" while the host code runs on.
+type slowLink struct {
+	*memConn
+	mu   sync.Mutex
+	slow bool
+}
+
+func (l *slowLink) setSlow(v bool) { l.mu.Lock(); l.slow = v; l.mu.Unlock() }
+
+func (l *slowLink) Write(p []byte) (int, error) {
+	l.mu.Lock()
+	slow := l.slow
+	l.mu.Unlock()
+	if !slow || len(p) <= 8 {
+		return l.memConn.Write(p)
+	}
+	h := len(p) / 2
+	if n, err := l.memConn.Write(p[:h]); err != nil {
+		return n, err
+	}
+	time.Sleep(10 * time.Millisecond)
+	n, err := l.memConn.Write(p[h:])
+	return h + n, err
+}
+
 const c14Watch = 5 * time.Second
 
 var errC14Hang = errors.New("no return within the watchdog time")
@@ -672,7 +698,7 @@ func c14Run(c *Ctx) {
 	// a driver that can be crashed by TNC input would take the harness down with it) ----
 	c14Children(c, sub)
 	for _, v := range c.Res.Violations {
-		if v.Key == "C14:parse-panic" || strings.HasPrefix(v.Key, "C14:frame-reader-panic") || strings.HasPrefix(v.Key, "C14:tnc-input-crashes-process") {
+		if v.Key == "C14:parse-panic" || strings.HasPrefix(v.Key, "C14:frame-reader-panic") || (strings.HasPrefix(v.Key, "C14:tnc-input-crashes-process") && !strings.HasSuffix(v.Key, ":link-loss-during-write")) {
 			c.Note("in-process end-to-end sections (5)-(7) skipped: input from the TNC can crash the driver's goroutines and thereby this process (see the violations)")
 			return
 		}
@@ -911,6 +937,76 @@ func c14EndToEnd(c *Ctx, cases *[]Case, sub func() *rand.Rand) {
 				c.Violate("C14:host-frame-malformed", "the TNC received a malformed host frame: "+perrs[0], rep)
 			}
 			*cases = append(*cases, Case{Line: line, Impl: impl, Desc: desc, Class: "e2e-rx-" + map[bool]string{true: "tcp", false: "serial"}[tcp], Nontrivial: nt})
+		}()
+	}
+
+	// ---- (5b) back-to-back writes over a SLOW serial link with a TNC that reports BUFFER early ----
+	// The TNC may report BUFFER (for earlier data) as soon as it has seen a data frame's header; Write then
+	// returns while the frame's tail is still going out on the link. Whatever the host does next, every data
+	// frame on the wire must be intact and the payloads must concatenate to the written bytes.
+	for i := 0; i < c.Budget(6, 60) && c.TimeLeft() && c14Hangs < 6; i++ {
+		nW := 3 + rng.Intn(4)
+		var chunks [][]byte
+		for j := 0; j < nW; j++ {
+			chunks = append(chunks, c14RandBytes(rng, 40+rng.Intn(400)))
+		}
+		rep := map[string]interface{}{"mode": "serial-slow-link", "writes": nW, "tnc": "reports BUFFER after the frame header, takes the frame body in two halves 10 ms apart"}
+		host, tncEnd := newMemPipe(nil, nil)
+		sim := newArdopSim(false, tncEnd, nil)
+		slow := &slowLink{memConn: host}
+		var tnc *ardop.TNC
+		var err error
+		hang, pv := c14Watch1(c14Watch, func() { tnc, err = ardop.Open(slow, "N0CALL", "JP20QE") })
+		if hang || pv != nil || err != nil {
+			host.Kill()
+			c.Violate("C14:open-failed", fmt.Sprintf("ardop.Open over the slow serial link: hang=%v panic=%v err=%v", hang, pv, err), rep)
+			continue
+		}
+		func() {
+			env := &c14Env{sim: sim, tnc: tnc, host: host, ptt: &pttRec{}}
+			defer func() {
+				// no frame may be half way out when the link is closed (the driver's writer goroutine panics on a
+				// failed data write, see the link-loss child case)
+				slow.setSlow(false)
+				time.Sleep(60 * time.Millisecond)
+				env.shutdown()
+			}()
+			tnc.SetPTT(env.ptt)
+			if err := env.dial(); err != nil {
+				c.Violate("C14:connect-failed:dial", "no connection against the simulated TNC: "+err.Error(), rep)
+				return
+			}
+			sim.mu.Lock()
+			sim.earlyBuffer = true
+			sim.mu.Unlock()
+			slow.setSlow(true)
+			var werr error
+			hang, pv := c14Watch1(c14Watch, func() {
+				for _, ch := range chunks {
+					if _, werr = env.conn.Write(ch); werr != nil {
+						return
+					}
+				}
+			})
+			if hang || pv != nil {
+				c.Violate("C14:write-hang-or-panic", fmt.Sprintf("back-to-back writes over a slow link: hang=%v panic=%v", hang, pv), rep)
+				return
+			}
+			sim.waitFor(2*time.Second, func() bool { return len(sim.offered)+len(sim.protoErrs) >= nW })
+			slow.setSlow(false)
+			_, _, accepted, _, _, perrs := sim.snapshot()
+			if len(perrs) > 0 {
+				c.Violate("C14:host-frame-malformed:slow-link", "the TNC received a malformed host frame during back-to-back writes over a slow link: "+perrs[0], rep)
+				return
+			}
+			if werr != nil {
+				c.Violate("C14:write-accounting", "Write failed during back-to-back writes over a slow link: "+werr.Error(), rep)
+				return
+			}
+			if !bytes.Equal(bytes.Join(accepted, nil), bytes.Join(chunks, nil)) {
+				c.Violate("C14:write-data-differs:slow-link", fmt.Sprintf("the %d data frames the TNC accepted do not concatenate to the %d written bytes", len(accepted), len(bytes.Join(chunks, nil))), rep)
+			}
+			c.Res.Distribution["e2e-tx-slow-link(oracle only)"]++
 		}()
 	}
 
@@ -1262,6 +1358,9 @@ func c14Children(c *Ctx, sub func() *rand.Rand) {
 		}
 		cs = append(cs, c14ChildCase{tcp, []string{"dial", "dial", "listen", "none"}[rng.Intn(4)], ctrl, data, "generated", "generated"})
 	}
+	// the link to the TNC dies while a data frame is half way out; then one more Write (last: a crash here
+	// must not hide the cases above)
+	cs = append(cs, c14ChildCase{false, "linkloss", nil, nil, "serial link lost while a data frame is being written", "link-loss-during-write"})
 
 	exe, err := os.Executable()
 	if err != nil {
@@ -1307,6 +1406,17 @@ func c14Children(c *Ctx, sub func() *rand.Rand) {
 				c.Res.Distribution["child-malformed-stream"]++
 				if !strings.HasSuffix(l, " alive") {
 					c.Res.Distribution["child-setup-failed"]++
+				}
+				if strings.Contains(l, "write1=") {
+					c.Res.Distribution["child-link-loss-during-write"]++
+					for _, w := range []string{"write1", "write2"} {
+						switch {
+						case strings.Contains(l, w+"=panicked"):
+							c.Violate("C14:write-panics-after-link-loss:"+w, "conn.Write panicked instead of returning an error when the serial link to the TNC was lost ("+w+": 1 = frame half way out, 2 = a later write): "+l, map[string]interface{}{"observed": l})
+						case strings.Contains(l, w+"=hang"):
+							c.Violate("C14:write-hangs-after-link-loss:"+w, "conn.Write did not return within 3 s after the serial link to the TNC was lost: "+l, map[string]interface{}{"observed": l})
+						}
+					}
 				}
 			}
 		}
